@@ -89,6 +89,18 @@ def wrap(payload_ops, depth, style):
   return b'(lp0\n(' + u('m') + b'(I1\n' + inner + b'tta.'
 
 
+ERROR_PREFIXES = [
+  b'U\x04caf\xe9',                      # SHORT_BINSTRING, latin-1 bytes (what a Python 2 sender produces)
+  b'T\x04\x00\x00\x00caf\xe9',          # BINSTRING
+  b"S'caf\xe9'\n",                      # STRING
+  b'X\x02\x00\x00\x00\xed\xa0',         # BINUNICODE, invalid utf-8
+  b'X\x01\x00\x00\x00\xff',
+  b'\x8c\x02\xc3\x28',                  # SHORT_BINUNICODE, invalid utf-8
+  b'V\\ud800\n',                        # UNICODE, lone surrogate
+  b"S'\\xe9'\n",
+]
+
+
 def frame(p):
   return struct.pack('!I', len(p)) + p
 
@@ -320,7 +332,7 @@ def run_config(cfg, res):
              ('carbon.util', 'SafeUnpickler'), ('carbon.util', 'pickle'), ('pickle', 'loads'), ('_pickle', 'loads'),
              ('verif_canary', 'boom'), ('Verif_Canary', 'boom'), ('verif_canary ', 'boom'), ('', 'boom'),
              ('verif_canary', ''), ('verif_canary.sub', 'boom'), ('os.path', 'join'), ('json.decoder', 'JSONDecoder')]
-  for _ in range(40 if cfg['tier'] == 'quick' else 200):
+  for _ in range(60 if cfg['tier'] == 'quick' else 1500):
     targets.append((gen.metric_name(r, nonascii=False, maxseg=2), gen.metric_name(r, nonascii=False, maxseg=1)))
   for mod, name in targets:
     for label, ops in routes_for(mod, name):
@@ -335,6 +347,12 @@ def run_config(cfg, res):
       valid = pickle.dumps([('ok.metric', (1, 2.0))], protocol=2)
       state['pr'].dataReceived(frame(valid))
       feed(wrap(ops, 1, 'value'), [(mod, name)], 'after-valid/' + label)
+      # decode-error paths: a string the utf-8 unpickler cannot decode (or any other erroring item) sits before
+      # the global, so that whatever the unpickler does when it hits the error is exercised with a global still to come
+      for pi, pre in enumerate(ERROR_PREFIXES):
+        feed(pre + b'0' + ops + b'.', [(mod, name)], 'after-undecodable@%d/%s' % (pi, label))
+        feed(b'(lp0\n(' + pre + b'(I1\n' + ops + b'tta.', [(mod, name)], 'undecodable-name@%d/%s' % (pi, label))
+        feed(b'\x80\x02' + pre + b'0' + ops + b'.', [(mod, name)], 'after-undecodable-proto2@%d/%s' % (pi, label))
       res.count('route_cases')
   # EXT opcodes
   for code, opc in ((0x11, b'\x82\x11'), (0x1234, b'\x83\x34\x12'), (0x7fff0001, b'\x84\x01\x00\xff\x7f')):
